@@ -376,10 +376,27 @@ func (f *Formatter) renderPreContent(n *html.Node, buf *strings.Builder) {
 			buf.WriteString(escapeText(c.Data))
 		case html.ElementNode:
 			buf.WriteString(f.renderOpenTag(c))
-			if !isVoidElement(c.DataAtom) {
-				f.renderPreContent(c, buf)
-				buf.WriteString(f.renderCloseTag(c))
+			if isVoidElement(c.DataAtom) {
+				continue
 			}
+			if c.Data == "script" || c.Data == "style" || isVerbatimElement(c.Data) {
+				// raw text inside <pre>: not markup for the parser, copied as it is
+				for t := c.FirstChild; t != nil; t = t.NextSibling {
+					if t.Type == html.TextNode {
+						buf.WriteString(t.Data)
+					}
+				}
+				buf.WriteString(f.renderCloseTag(c))
+				continue
+			}
+			if c.Data == "textarea" || c.Data == "pre" || c.Data == "listing" {
+				// the parser drops one newline that directly follows these open tags
+				if t := c.FirstChild; t != nil && t.Type == html.TextNode && strings.HasPrefix(t.Data, "\n") {
+					buf.WriteString("\n")
+				}
+			}
+			f.renderPreContent(c, buf)
+			buf.WriteString(f.renderCloseTag(c))
 		case html.CommentNode:
 			buf.WriteString("<!--")
 			buf.WriteString(c.Data)
